@@ -17,12 +17,20 @@ LEAN = os.path.join(VERIF, "lean")
 HARNESS = os.path.join(VERIF, "harness")
 EXTRACT = os.path.join(VERIF, "extract")
 CACHE = os.path.join(VERIF, ".cache")
-EVIDENCE = os.path.join(VERIF, "evidence")
+EVIDENCE = os.environ.get("VERIF_EVIDENCE", os.path.join(VERIF, "evidence"))
 REPLAYS = os.path.join(VERIF, "replays")
 FMODEL = os.path.join(LEAN, ".lake", "build", "bin", "fmodel")
 FPREDICT = os.path.join(LEAN, ".lake", "build", "bin", "fpredict")
 FMONITOR = os.path.join(LEAN, ".lake", "build", "bin", "fmonitor")
-HBIN = os.path.join(HARNESS, "bin", "harness")
+# the harness is compiled against REPO (go.mod `replace … => /repo`); for another tree
+# (seeded-change rehearsals on a scratch copy) an alternative mod file and binary are used
+if REPO == "/repo":
+    HBIN = os.path.join(HARNESS, "bin", "harness")
+    HMOD = None
+else:
+    _tag = hashlib.sha256(REPO.encode()).hexdigest()[:10]
+    HBIN = os.path.join(CACHE, "harness-" + _tag, "harness")
+    HMOD = os.path.join(CACHE, "harness-" + _tag, "go.alt.mod")
 XBIN = os.path.join(EXTRACT, "bin", "extract")
 
 GOENV = dict(os.environ, GOFLAGS="-mod=mod", GOPROXY="off", GOSUMDB="off", GOTOOLCHAIN="local")
@@ -96,8 +104,15 @@ def build_harness():
     with Lock("build-harness"):
         os.makedirs(os.path.dirname(HBIN), exist_ok=True)
         t = time.time()
-        shutil.copyfile(os.path.join(REPO, "go.sum"), os.path.join(HARNESS, "go.sum"))
-        run(["go", "build", "-tags", "verif", "-o", HBIN, "."], cwd=HARNESS, env=GOENV, timeout=1800)
+        if HMOD is None:
+            shutil.copyfile(os.path.join(REPO, "go.sum"), os.path.join(HARNESS, "go.sum"))
+            run(["go", "build", "-tags", "verif", "-o", HBIN, "."], cwd=HARNESS, env=GOENV, timeout=1800)
+        else:
+            mod = open(os.path.join(HARNESS, "go.mod")).read().replace("=> /repo", "=> " + REPO)
+            with open(HMOD, "w") as f:
+                f.write(mod)
+            shutil.copyfile(os.path.join(REPO, "go.sum"), HMOD[:-4] + ".sum")
+            run(["go", "build", "-modfile=" + HMOD, "-tags", "verif", "-o", HBIN, "."], cwd=HARNESS, env=GOENV, timeout=1800)
         log("harness built in %.1fs" % (time.time() - t))
 
 
@@ -335,6 +350,7 @@ def correspondence(tier, seed, focus=None, histories=None, maxops=None):
             with open(done, "w") as f:
                 json.dump({"gen_s": t1 - t0, "model_s": time.time() - t1}, f)
             log("correspondence run %s: gen %.1fs, model %.1fs" % (key, t1 - t0, time.time() - t1))
+    _prune(os.path.join(CACHE, "corr"), keep=8, protect=d)
     runs = []
     for w in range(plan["workers"]):
         ops = os.path.join(d, "w%d.ops" % w)
@@ -351,6 +367,17 @@ def correspondence(tier, seed, focus=None, histories=None, maxops=None):
                          model=os.path.join(d, "w%d.model" % w), pred=os.path.join(d, "w%d.pred" % w),
                          dist=dist, err=err))
     return runs, d
+
+
+def _prune(root, keep, protect):
+    """disk hygiene: keep only the most recent cached runs"""
+    try:
+        ds = sorted((os.path.join(root, n) for n in os.listdir(root)), key=os.path.getmtime, reverse=True)
+        for old in ds[keep:]:
+            if old != protect:
+                shutil.rmtree(old, ignore_errors=True)
+    except OSError:
+        pass
 
 
 def run_ops(ops_lines, workdir, tag):
